@@ -774,6 +774,18 @@ class PhaseField(_IModel):
         def normalize_matrix(M):
             return M / Norm(M, axis=(-2, -1))
 
+        def line_in_plane(P):
+            """rank-1 projector t ⊗ t on a direction of the plane the rank-2 projector P projects on\n
+            (a double eigenvalue: any orthonormal pair of its plane are eigenvectors)."""
+            P = np.asarray(P)
+            shape = P.shape
+            P = P.reshape(-1, 3, 3)
+            # the column of P with the largest norm is a non-zero vector of the plane
+            k = np.argmax(np.linalg.norm(P, axis=-2), axis=-1)
+            t = P[np.arange(P.shape[0]), :, k]
+            t = t / np.linalg.norm(t, axis=-1, keepdims=True)
+            return np.einsum("ni,nj->nij", t, t).reshape(shape)
+
         if self.dim == 2:
             # invariants of the strain tensor [e,pg]
             det_e_pg = Det(matrix_e_pg)
@@ -816,18 +828,27 @@ class PhaseField(_IModel):
 
             tic.Tac("Split", "Invariants", False)
 
-            g_e_pg = I1_e_pg**2 - 3 * I2_e_pg
+            g_e_pg = np.asarray(I1_e_pg**2 - 3 * I2_e_pg)
+            g_e_pg = np.maximum(g_e_pg, 0.0)  # g >= 0 mathematically
             sqrt_g_e_pg = np.sqrt(g_e_pg)
 
-            g_neq_0 = g_e_pg != 0
+            # g = 0 <=> three equal eigenvalues; relative to the size of the tensor (round-off leaves g ~ 1e-32 |eps|^2)
+            scale_e_pg = np.asarray(Norm(matrix_e_pg, axis=(-2, -1)))
+            g_neq_0 = sqrt_g_e_pg > 1e-7 * scale_e_pg
 
-            arg = 1 / 2 * (2 * I1_e_pg**3 - 9 * I1_e_pg * I2_e_pg + 27 * I3_e_pg)
+            arg = np.asarray(
+                1 / 2 * (2 * I1_e_pg**3 - 9 * I1_e_pg * I2_e_pg + 27 * I3_e_pg)
+            )
             np.divide(
                 arg,
                 g_e_pg ** (3 / 2),
                 out=arg,
                 where=g_neq_0,
             )
+            arg[~g_neq_0] = 0.0
+
+            # |arg| <= 1 mathematically; round-off pushes it just outside at repeated eigenvalues (arccos -> nan)
+            np.clip(arg, -1.0, 1.0, out=arg)
 
             # Lode's angle such that 0 <= theta <= pi/3
             theta = 1 / 3 * np.arccos(arg)
@@ -836,9 +857,9 @@ class PhaseField(_IModel):
             # Init eigenvalues an eigenprojectors for case 4
             # 𝜖1 = 𝜖2 = 𝜖3 ⇐⇒ 𝑔 = 0.
             # -------------------------------------
-            val1_e_pg = I1_e_pg / 3
-            val2_e_pg = I1_e_pg / 3
-            val3_e_pg = I1_e_pg / 3
+            val1_e_pg = np.array(I1_e_pg / 3)
+            val2_e_pg = np.array(I1_e_pg / 3)
+            val3_e_pg = np.array(I1_e_pg / 3)
 
             # Init proj matrices
             M1 = FeArray.zeros(*matrix_e_pg.shape)
@@ -850,7 +871,16 @@ class PhaseField(_IModel):
 
             tic.Tac("Split", "proj case 4", False)
 
-            I_rg = 1 / 3 * ((I1_e_pg - sqrt_g_e_pg) * I_e_pg)
+            mat_e_pg = np.asarray(matrix_e_pg)
+            eye3 = np.eye(3)
+
+            # Every case below is selected Gauss point by Gauss point: (elements, points) index pairs.
+
+            # round-off moves arg off -1 / +1 by ~1e-16, i.e. theta off pi/3 / 0 by ~1e-8 (arccos is a square
+            # root there), and the closed form for distinct eigenvalues loses its digits as they approach each
+            # other: states within tolTheta of a double eigenvalue use the closed form of the double eigenvalue
+            # (relative error below 1e-5 on either side of the switch)
+            tolTheta = 1e-5
 
             # -------------------------------------
             # 2. Two maximum eigenvalues
@@ -858,18 +888,21 @@ class PhaseField(_IModel):
             # arg = -1
             # -------------------------------------
 
-            test2 = g_neq_0 & (theta == np.pi / 3)
+            test2 = g_neq_0 & (np.pi / 3 - theta <= tolTheta)
 
-            case2 = np.unique(np.where(test2)[0])
+            if test2.any():
+                case2 = np.where(test2)
+                sg = sqrt_g_e_pg[case2]
+                val1_e_pg[case2] += -2 / 3 * sg
+                val2_e_pg[case2] += 1 / 3 * sg
+                val3_e_pg[case2] += 1 / 3 * sg
 
-            if len(case2) > 0:
-                val1_e_pg[case2] += -2 / 3 * sqrt_g_e_pg[case2]
-                val2_e_pg[case2] += 1 / 3 * sqrt_g_e_pg[case2]
-                val3_e_pg[case2] += 1 / 3 * sqrt_g_e_pg[case2]
-
-                M1[case2] = (g_e_pg ** (-1 / 2) * (I_rg - matrix_e_pg))[case2]
-                # M2[case2] = 1 / 2 * (I_e_pg - M1)[case2]
-                M3[case2] = 1 / 2 * (I_e_pg - M1)[case2]
+                # M1 = (eps2 I - matrix) / (eps2 - eps1) with the double eigenvalue eps2 = (I1 + sqrt(g)) / 3
+                eps2 = val2_e_pg[case2][:, None, None]
+                M1_c2 = (eps2 * eye3 - mat_e_pg[case2]) / sg[:, None, None]
+                M1[case2] = M1_c2
+                # the double eigenvalue: two orthogonal directions of its plane (M2 = I - M1 - M3 below)
+                M3[case2] = line_in_plane(eye3 - M1_c2)
 
                 tic.Tac("Split", "proj case 2", False)
 
@@ -879,18 +912,21 @@ class PhaseField(_IModel):
             # arg = 1
             # -------------------------------------
 
-            test3 = g_neq_0 & (theta == 0)
+            test3 = g_neq_0 & (theta <= tolTheta) & ~test2
 
-            case3 = np.unique(np.where(test3)[0])
+            if test3.any():
+                case3 = np.where(test3)
+                sg = sqrt_g_e_pg[case3]
+                val1_e_pg[case3] += -1 / 3 * sg
+                val2_e_pg[case3] += -1 / 3 * sg
+                val3_e_pg[case3] += 2 / 3 * sg
 
-            if len(case3) > 0:
-                val1_e_pg[case3] += -1 / 3 * sqrt_g_e_pg[case3]
-                val2_e_pg[case3] += -1 / 3 * sqrt_g_e_pg[case3]
-                val3_e_pg[case3] += 2 / 3 * sqrt_g_e_pg[case3]
-
-                M3[case3] = (g_e_pg ** (-1 / 2) * (matrix_e_pg - I_rg))[case3]
-                M1[case3] = 1 / 2 * (I_e_pg - M3)[case3]
-                # M2[case3] = 1 / 2 * (I_e_pg - M3)[case3]
+                # M3 = (matrix - eps1 I) / (eps3 - eps1) with the double eigenvalue eps1 = (I1 - sqrt(g)) / 3
+                eps1 = val1_e_pg[case3][:, None, None]
+                M3_c3 = (mat_e_pg[case3] - eps1 * eye3) / sg[:, None, None]
+                M3[case3] = M3_c3
+                # the double eigenvalue: two orthogonal directions of its plane (M2 = I - M1 - M3 below)
+                M1[case3] = line_in_plane(eye3 - M3_c3)
 
                 tic.Tac("Split", "proj case 3", False)
 
@@ -899,35 +935,29 @@ class PhaseField(_IModel):
             # 𝜖1 < 𝜖2 < 𝜖3 ⇐⇒ 𝑔 ≠ 0, 𝜃 ≠ 0, 𝜃 ≠ 𝜋∕3.
             # -------------------------------------
 
-            test1 = g_neq_0 & (theta != 0) & (theta != np.pi / 3)
+            test1 = g_neq_0 & ~test2 & ~test3
 
-            case1 = np.setdiff1d(
-                np.unique(np.where(test1)[0]), np.union1d(case2, case3)
-            )
+            if test1.any():
+                case1 = np.where(test1)
+                sg = sqrt_g_e_pg[case1]
+                th = theta[case1]
+                val1_e_pg[case1] += 2 / 3 * sg * np.cos(2 * np.pi / 3 + th)
+                val2_e_pg[case1] += 2 / 3 * sg * np.cos(2 * np.pi / 3 - th)
+                val3_e_pg[case1] += 2 / 3 * sg * np.cos(th)
 
-            if len(case1) > 0:
-                val1_e_pg[case1] += (
-                    2 / 3 * (sqrt_g_e_pg * np.cos(2 * np.pi / 3 + theta))[case1]
-                )
-                val2_e_pg[case1] += (
-                    2 / 3 * (sqrt_g_e_pg * np.cos(2 * np.pi / 3 - theta))[case1]
-                )
-                val3_e_pg[case1] += 2 / 3 * (sqrt_g_e_pg * np.cos(theta))[case1]
-
-                # Compute projectors only on the case1 subset — avoids full-(Ne,nPg) matmuls
-                v1_c1 = val1_e_pg[case1]
-                v2_c1 = val2_e_pg[case1]
-                v3_c1 = val3_e_pg[case1]
-                mat_c1 = matrix_e_pg[case1]
+                v1_c1 = val1_e_pg[case1][:, None, None]
+                v2_c1 = val2_e_pg[case1][:, None, None]
+                v3_c1 = val3_e_pg[case1][:, None, None]
+                mat_c1 = mat_e_pg[case1]
 
                 M1[case1] = (
-                    (mat_c1 - v2_c1 * np.eye(3))
-                    @ (mat_c1 - v3_c1 * np.eye(3))
+                    (mat_c1 - v2_c1 * eye3)
+                    @ (mat_c1 - v3_c1 * eye3)
                     / ((v1_c1 - v2_c1) * (v1_c1 - v3_c1))
                 )
                 M3[case1] = (
-                    (mat_c1 - v1_c1 * np.eye(3))
-                    @ (mat_c1 - v2_c1 * np.eye(3))
+                    (mat_c1 - v1_c1 * eye3)
+                    @ (mat_c1 - v2_c1 * eye3)
                     / ((v3_c1 - v1_c1) * (v3_c1 - v2_c1))
                 )
 
@@ -1143,9 +1173,22 @@ class PhaseField(_IModel):
             v2_m_v3 = val_e_pg[..., 1] - val_e_pg[..., 2]
             v2_m_v3[v2_m_v3 == 0] = 1
 
-            thetap[..., 0] = (valp[..., 0] - valp[..., 1]) / (2 * v1_m_v2)
-            thetap[..., 1] = (valp[..., 0] - valp[..., 2]) / (2 * v1_m_v3)
-            thetap[..., 2] = (valp[..., 1] - valp[..., 2]) / (2 * v2_m_v3)
+            # theta_ab = (v_a^+ - v_b^+) / (2 (v_a - v_b)), and its limit d_a^+ / 2 for a repeated eigenvalue
+            eq12 = val_e_pg[..., 0] == val_e_pg[..., 1]
+            eq13 = val_e_pg[..., 0] == val_e_pg[..., 2]
+            eq23 = val_e_pg[..., 1] == val_e_pg[..., 2]
+            theta12 = np.where(
+                eq12, dvalp[..., 0] / 2, (valp[..., 0] - valp[..., 1]) / (2 * v1_m_v2)
+            )
+            theta13 = np.where(
+                eq13, dvalp[..., 0] / 2, (valp[..., 0] - valp[..., 2]) / (2 * v1_m_v3)
+            )
+            theta23 = np.where(
+                eq23, dvalp[..., 1] / 2, (valp[..., 1] - valp[..., 2]) / (2 * v2_m_v3)
+            )
+            thetap[..., 0] = theta12
+            thetap[..., 1] = theta13
+            thetap[..., 2] = theta23
 
             # [Remark M]
             # thetam[..., 0] = (valm[..., 0] - valm[..., 1]) / (2 * v1_m_v2)
